@@ -268,9 +268,10 @@ pub fn from_impl(t: &SymbolicBDDToken) -> Tok {
 /// identifiers (Var tokens) in order of first appearance
 pub fn identifiers(toks: &[Tok]) -> Vec<String> {
     let mut out: Vec<String> = Vec::new();
+    let mut seen: std::collections::HashSet<&str> = std::collections::HashSet::new();
     for t in toks {
         if let Tok::Var(n) = t {
-            if !out.contains(n) {
+            if seen.insert(n.as_str()) {
                 out.push(n.clone());
             }
         }
